@@ -331,11 +331,11 @@ def c08(tier, seed, wd, replay):
             pf = lambda ks: P.h(ks) % 6 == 0
         run_config(run, "C08", f"{name}:{vcls}", consts, wd, spec, vertex_cls=vcls, probe_filter=pf)
     # dense random graphs from the specification's own random walk, duplicate-target attribute vectors
-    bigspec = {"kind": "C08", "seed": seed, "vectors": 5 if tier == "quick" else 10, "big": True}
+    bigspec = {"kind": "C08", "seed": seed, "vectors": 3 if tier == "quick" else 10, "big": True}
     name, consts = qcfg("graphs-sim-6x9", **BIG)
     run_config(run, "C08", name + ":FalsyVertex", consts, wd, bigspec, vertex_cls="FalsyVertex",
                simulate="num=20" if tier == "quick" else "num=150", depth=10, seed=seed + 2,
-               probe_filter=big_filter(6, 10 if tier == "quick" else 6))
+               probe_filter=big_filter(6, 16 if tier == "quick" else 6))
     if tier == "thorough":
         name, consts = qcfg("graphs-4x4-D", NV=4, InitBV=4, NL=4, Kinds={"D"}, OnlyOps={"new"}, AllowNone=False)
         run_config(run, "C08", name + ":Vertex", consts, wd, {"kind": "C08", "seed": seed, "vectors": 6, "big": True},
